@@ -248,6 +248,14 @@ func (w *Wrapper) SetMeta(m Meta) {
 
 // Private methods
 
+// isFieldTag reports whether api is the api tag of an attribute or of a
+// relationship. Other struct fields (untagged ones, the ID field, fields
+// with any other api tag) are not fields of the resource, even when their
+// json tag is the name of one.
+func isFieldTag(api string) bool {
+	return api == "attr" || api == "rel" || strings.HasPrefix(api, "rel,")
+}
+
 func (w *Wrapper) getField(key string) any {
 	if key == "" {
 		panic("key is empty")
@@ -257,7 +265,7 @@ func (w *Wrapper) getField(key string) any {
 		field := w.val.Field(i)
 		sf := w.val.Type().Field(i)
 
-		if key == sf.Tag.Get("json") && sf.Tag.Get("api") != "" {
+		if key == sf.Tag.Get("json") && isFieldTag(sf.Tag.Get("api")) {
 			if strings.HasPrefix(field.Type().String(), "*") && field.IsNil() {
 				return nil
 			}
@@ -278,7 +286,7 @@ func (w *Wrapper) setField(key string, v any) {
 		field := w.val.Field(i)
 		sf := w.val.Type().Field(i)
 
-		if key == sf.Tag.Get("json") {
+		if key == sf.Tag.Get("json") && isFieldTag(sf.Tag.Get("api")) {
 			if v == nil {
 				field.Set(reflect.New(field.Type()).Elem())
 				return
